@@ -332,7 +332,8 @@ class SimOps:
         self.po_s_locs = np.flatnonzero(self.c_locs[self.ppo_offset+np.arange(len(self.circuit.io_nodes))] >= 0)
         self.ppio_s_locs = np.arange(len(self.circuit.io_nodes), self.s_len)
 
-        self.pippi_s_locs = np.concatenate([self.pi_s_locs, self.ppio_s_locs])
+        ppi_assigned = self.c_locs[self.ppi_offset+self.ppio_s_locs] >= 0  # a state element that nobody reads has no input slot
+        self.pippi_s_locs = np.concatenate([self.pi_s_locs, self.ppio_s_locs[ppi_assigned]])
         self.poppo_s_locs = np.concatenate([self.po_s_locs, self.ppio_s_locs])
 
         self.pi_c_locs = self.c_locs[self.ppi_offset+self.pi_s_locs]
@@ -340,5 +341,5 @@ class SimOps:
         self.ppi_c_locs = self.c_locs[self.ppi_offset+self.ppio_s_locs]
         self.ppo_c_locs = self.c_locs[self.ppo_offset+self.ppio_s_locs]
 
-        self.pippi_c_locs = np.concatenate([self.pi_c_locs, self.ppi_c_locs])
+        self.pippi_c_locs = np.concatenate([self.pi_c_locs, self.ppi_c_locs[ppi_assigned]])
         self.poppo_c_locs = np.concatenate([self.po_c_locs, self.ppo_c_locs])
